@@ -86,7 +86,7 @@ OOD = "ood"
 SHARD = 60
 RULE = ("(a) CID part: the valid CIDs, every rewrite family and a sample of the defect catalogue of C09, each logical CID stored as "
         "CSV (Python csv module), ODS (the C15 encoder with random encoding choices) and XLSX (xlsxwriter, numeric looking cells "
-        "stored as numbers half of the time) and loaded with cutplace.Cid(path): the three loaded interfaces (or the rows named by "
+        "stored as numbers half of the time) and loaded with cutplace.Cid(path), the CSV text also through create_cid_from_string() and Cid(stream): the loaded interfaces (or the rows named by "
         "the rejections) are compared with the model's single evaluation on the logical rows and with each other; "
         "(b) data part: CIDs over all field types except Pattern/RegEx with format-neutral properties, tables with accepted cells, "
         "mutated cells, empty cells, numbers written in several spellings, dates incl. the Excel ' 00:00:00' form, stored as "
@@ -134,8 +134,12 @@ def store_xlsx(path, rows, rnd, numbers=True):
 
 
 def load_cid(path):
+    return load_cid_with(lambda: interface.Cid(path))
+
+
+def load_cid_with(loader):
     try:
-        cid = interface.Cid(path)
+        cid = loader()
         return {"accepted": c09.summary(cid)}
     except errors.InterfaceError as e:
         m = c09.ROW_RE.search(str(e))
@@ -161,7 +165,7 @@ DATA_TYPES = {
     "Constant": (["x"], ["x", "X", "", "xx"]),
     "DateTime": (["DD.MM.YYYY", "YYYY-MM-DD", "YYYY-MM-DD hh:mm:ss", "hh:mm"], ["01.02.2003", "2003-02-01", "2003-02-01 00:00:00", "01.02.2003 00:00:00",
                                                                                 "2003-02-01 04:05:06", "23:59", "29.02.2001", "31.04.2000", "", "x", "00:00:00", "23:59 00:00:00"]),
-    "Text": ([""], ["some", " ", "ä€", "", "a\nb", "x" * 50, "1.0", "v2.0", "7", "TRUE", "2003-02-01"]),
+    "Text": ([""], ["some", " ", "ä€", "", "a\nb", "a\rb", "a\r\nb", "x" * 50, "1.0", "v2.0", "7", "TRUE", "2003-02-01"]),
 }
 
 
@@ -277,6 +281,12 @@ def make_case(inp):
                 store_xlsx(path, rows, rnd)
             obs[ext] = load_cid(path)
             os.remove(path)
+        if not any("\r" in c for r in rows for c in r):
+            # the other ways to hand over the same CSV text: as a string and as an open text stream
+            buf = io.StringIO(newline="")
+            csv.writer(buf, lineterminator="\n").writerows(rows)
+            obs["csv-string"] = load_cid_with(lambda: interface.create_cid_from_string(buf.getvalue()))
+            obs["csv-stream"] = load_cid_with(lambda: interface.Cid(io.StringIO(buf.getvalue(), newline="")))
         coq_in = "(CidPart (CidCase %s %s))" % (c09.coq_env(), L(rows, lambda r: L(r, S)))
         coq_obs = "(OCid %s)" % L([obs["csv"], obs["ods"], obs["xlsx"]], coq_tobs)
         kinds = sorted({("accepted" if "accepted" in o else "rejected" if "rejected" in o else "leak") for o in obs.values()})
@@ -296,11 +306,12 @@ def direct_oracle(inp, obs):
             if "leak" in o and not inp.get("hostile"):
                 return "loading the CID stored as %s raised %s (%s)" % (ext, o["leak"], o["msg"])
         keys = []
-        for ext in ("csv", "ods", "xlsx"):
-            o = obs[ext]
-            keys.append(("accepted", o["accepted"]) if "accepted" in o else ("rejected", o.get("rejected")))
-        if not (keys[0] == keys[1] == keys[2]):
-            return "the same CID loads differently from csv / ods / xlsx: %r" % (keys,)
+        for ext in ("csv", "ods", "xlsx", "csv-string", "csv-stream"):
+            if ext in obs:
+                o = obs[ext]
+                keys.append(("accepted", o["accepted"]) if "accepted" in o else ("rejected", o.get("rejected")))
+        if any(k != keys[0] for k in keys):
+            return "the same CID loads differently from csv / ods / xlsx / CSV text as string / as stream: %r" % (keys,)
         return None
     for fmt, rec in obs.items():
         if "failure" in rec:
